@@ -601,3 +601,28 @@ Fixpoint thr_insert (x : N) (l : list N) : list N :=
 Definition thr_norm (l : list N) : list N := fold_right thr_insert [] l.
 Definition c03_threads_sb (scalar : bool) (input out : list N) : bool :=
   list_eqb out (if scalar then input else thr_norm input).
+
+(** C03 for a tuned sample size: with [j0] the first round that passes the
+    tuning threshold and R = ceil(n/t), when no time limit is reached in the
+    first [j0 + R] rounds and the time floor is reached by then, exactly
+    [j0 + R] rounds are run and t*R samples are recorded (the passing round is
+    the first recorded one); fewer rounds only if the ceiling was reached. *)
+Definition c03_tuned_sb (c : cfg) (t : nat) (init : N) (hist : list round_obs) (o : seen) : bool :=
+  let k := length hist in
+  let kN := N.of_nat k in
+  let tN := N.of_nat t in
+  if zero_case c || negb (tuned c) || negb (uniform t hist) then true
+  else
+    match first_pass c hist with
+    | None => true
+    | Some j0 =>
+        let r := ceil_div (sample_count_of c) tN in
+        let m := (j0 + N.to_nat r)%nat in
+        let free := forallb (fun j => elapsed_after c init hist j <? c_max c) (seq 0 (Nat.min m k)) in
+        if free then
+          if (k <? m)%nat then c_max c <=? elapsed_after c init hist k
+          else if (c_min c <=? elapsed_after c init hist m) || (c_max c <=? elapsed_after c init hist m)
+               then (k =? m)%nat && (N.of_nat (length (o_samples o)) =? tN * r)
+               else true
+        else true
+    end.
